@@ -231,7 +231,12 @@ def assembly(cx, rep, seg, mid):
             return (e(i1, 'y') - e(i0, 'y')) / (e(i1, 'x') - e(i0, 'x'))
 
         one = ('ic', 1)
-        def check_slopes(ra, rb, iv):
+        def check_slopes(ra, rb, iv, classes=('first', 'middle', 'last'), nfix=None, tag=''):
+            from ..models import recanon
+
+            def fx(t_):
+                # with a fixed number of knots (a special-cased small input) the symbolic positions become literal
+                return recanon(it, subst_term(t_, {N: ('ic', nfix)})) if nfix is not None else t_
             total = 0
             m_last = it.isub(N, ('ic', 3))
             expect = {
@@ -240,10 +245,13 @@ def assembly(cx, rep, seg, mid):
                 ('last', 'left'): ('mid', m_last), ('last', 'right'): ('xn', m_last),
             }
             for (cname, side), (kind, m) in expect.items():
+                if cname not in classes:
+                    continue
                 got = (ra if side == 'left' else rb)[cname]
+                m = fx(m)
                 fd_term, fd_cond = fdx_at(m)
                 total += 1
-                label = '%s:%s-%s' % (inst, cname, side)
+                label = '%s:%s-%s%s' % (inst, cname, side, tag)
                 if kind == 'mid':
                     ok = got == fd_term
                     rep.ob('align', label, ok, 'slope = f_dx(K[m], K[m+1], K[m+2]) with m = %s' % term_str(m), fn=inst, file=file, line=line,
@@ -259,7 +267,7 @@ def assembly(cx, rep, seg, mid):
                     for pol in (True, False):
                         nf = NF({fd_cond: pol})
                         mval = nf(fd_term)
-                        sec = secant(nf, ('ic', 0), ('ic', 1)) if kind == 'x0' else secant(nf, it.isub(N, ('ic', 2)), it.isub(N, one))
+                        sec = secant(nf, ('ic', 0), ('ic', 1)) if kind == 'x0' else secant(nf, fx(it.isub(N, ('ic', 2))), fx(it.isub(N, one)))
                         want = RF.const(Fraction(3, 2)) * sec - RF.const(Fraction(1, 2)) * mval
                         if not nf(got).equals(want):
                             ok = False
@@ -275,6 +283,47 @@ def assembly(cx, rep, seg, mid):
                     out_ += flat(p_)
                 return out_
             return [q]
+        if isinstance(seq, SelV) and seq.cond[0] == 'icmp' and seq.cond[1] in ('eq', 'ne') and seq.cond[2] == N and seq.cond[3][0] == 'ic':
+            # a fast path for one small input size next to the general construction: both are checked, the literal
+            # pieces of the fast path against the same identities with the number of knots fixed
+            c_ = seq.cond[3][1]
+            special, general = (seq.a, seq.b) if seq.cond[1] == 'eq' else (seq.b, seq.a)
+            okf = isinstance(special, SeqLit) and len(special.elems) == c_ - 1 and c_ >= 3
+            rep.ob('count', inst + ':fast-path', okf, 'fast path for %d knots returns %d pieces' % (c_, len(special.elems) if isinstance(special, SeqLit) else -1),
+                   fn=inst, file=file, line=line, msg='the %d-knot fast path does not return one piece per knot interval' % c_)
+            if okf:
+                from ..terms import match_term
+                pat_ = ('struct', 'piecewise::Segment', seg_end, ('struct', 'poly::Poly3', ('arr',) + tuple(seg_lanes)))
+                vars2 = {sym(n_) for n_ in ('f0', 'f1', 'k0.x', 'k0.y', 'k1.x', 'k1.y')}
+                ra_, rb_ = {}, {}
+                good = True
+                ivf = it.fresh_sym('ι')
+                for j_, piece_ in enumerate(special.elems):
+                    cname = 'first' if j_ == 0 else ('last' if j_ == c_ - 2 else 'middle%d' % j_)
+                    got_ = it.abstract(st, piece_)
+                    b_ = {}
+                    okm_ = match_term(pat_, got_, b_, vars2) and len(b_) == 6
+                    ki0 = b_.get(sym('k0.x'), ('?',))
+                    ki1 = b_.get(sym('k1.x'), ('?',))
+                    okk_ = okm_ and ki0 == ('elem', K, ('ic', j_), 'x') and b_[sym('k0.y')] == ('elem', K, ('ic', j_), 'y') and \
+                        ki1 == ('elem', K, ('ic', j_ + 1), 'x') and b_[sym('k1.y')] == ('elem', K, ('ic', j_ + 1), 'y') and got_[2] == ki1
+                    rep.ob('align', '%s:fast-path:piece%d' % (inst, j_), okk_, 'fast-path piece %d = segment(·, K[%d], ·, K[%d]) ending at K[%d].x' % (j_, j_, j_ + 1, j_ + 1),
+                           fn=inst, file=file, line=line, msg='fast-path piece %d is not segment(f, K[%d], f′, K[%d]) ending at the right knot' % (j_, j_, j_ + 1))
+                    if not okk_:
+                        good = False
+                        continue
+                    if cname in ('first', 'last'):
+                        ra_[cname] = canon_elems(b_[sym('f0')], K, nfc)
+                        rb_[cname] = canon_elems(b_[sym('f1')], K, nfc)
+                    else:
+                        # an interior piece of a longer fast path: both slopes are knot slopes
+                        for side_, m_ in (('f0', j_ - 1), ('f1', j_)):
+                            fd_t, _c = fdx_at(('ic', m_))
+                            rep.ob('align', '%s:fast-path:piece%d:%s' % (inst, j_, side_), canon_elems(b_[sym(side_)], K, nfc) == fd_t, 'knot slope', fn=inst, file=file, line=line,
+                                   msg='fast-path piece %d uses the wrong knot slope on its %s side' % (j_, 'left' if side_ == 'f0' else 'right'))
+                if good and 'first' in ra_ and 'last' in ra_:
+                    check_slopes(ra_, rb_, ivf, classes=('first', 'last'), nfix=c_, tag=':fast-path')
+            seq = general
         parts = flat(seq) if seq is not None else []
         if len(parts) == 3 and isinstance(parts[0], SeqLit) and len(parts[0].elems) == 1 and isinstance(parts[1], SeqMap) and \
                 isinstance(parts[2], SeqLit) and len(parts[2].elems) == 1:
